@@ -635,6 +635,8 @@ class X12Writer(X12Base):
         @type id: string
         """
         ele_term = self.ele_term
+        if id is None:
+            id = ''  # the header carried no control number
         seg_str = '{seg_id}{ele_term}{count:d}{ele_term}{id}'.format(\
             seg_id=seg_id, ele_term=ele_term, count=count, id=id)
         return pyx12.segment.Segment(seg_str, self.seg_term, self.ele_term,
